@@ -17,7 +17,8 @@ from ..world import World, digest_obj, objects_only, store_snapshot
 
 # universe ------------------------------------------------------------------
 A = {"p": MD5["x"], "q": MD5["y"]}
-B = {"caf\u00e9": MD5["x"], "cafe\u0301": MD5["z"]}   # two names that differ only in Unicode normalisation form
+# two names that differ only in Unicode normalisation form, and two that differ only in a trailing blank
+B = {"caf\u00e9": MD5["x"], "cafe\u0301": MD5["z"], "k": MD5["y"], "k ": MD5["x"]}
 C = {"s/t": MD5["w"], "p": MD5["x"]}
 TREES = {"A": A, "B": B, "C": C}
 TREE_BYTES = {k: ref.tree_bytes(v) for k, v in TREES.items()}
@@ -85,8 +86,12 @@ def cases(tier):
             yield {"kind": kind, "store": list(store), "tier": tier}
 
 
+UPPER = MD5["v"].upper()            # an object whose name is spelled in upper-case hex
+EMPTYDIR = ref.tree_oid({})         # the directory object of an empty directory: its listing is []
+
+
 def run_one(kind, store, used, shallow, dry, cachemode, read_only=False, cache_ro=False, unpacked=False,
-            pathform="plain", bulk=False):
+            pathform="plain", bulk=False, odd=False):
     """One gc call on a freshly built store; returns (violations, outcome)."""
     from dvc_objects.errors import ObjectDBPermissionError
 
@@ -126,6 +131,10 @@ def run_one(kind, store, used, shallow, dry, cachemode, read_only=False, cache_r
                     os.makedirs(d, exist_ok=True)
                     with open(os.path.join(d, "legacy"), "wb") as fh:
                         fh.write(b"legacy")
+        if odd:
+            # an upper-case object name and an empty directory object, both in use
+            put_raw(odb, UPPER, CONTENTS["v"])
+            put_raw(odb, EMPTYDIR, ref.tree_bytes({}))
         if bulk:
             from ..lab import BULK, BULK_MD5
 
@@ -136,7 +145,7 @@ def run_one(kind, store, used, shallow, dry, cachemode, read_only=False, cache_r
         store_oids = set(before)
 
         # reference
-        protected = set()
+        protected = {UPPER, EMPTYDIR} if odd else set()
         loadable = True
         for n in used:
             if ":" in n:
@@ -162,7 +171,7 @@ def run_one(kind, store, used, shallow, dry, cachemode, read_only=False, cache_r
         try:
             ret = gc(
                 odb,
-                used_infos(used, store_alg),
+                used_infos(used, store_alg) + ([hi(UPPER, store_alg), hi(EMPTYDIR, store_alg)] if odd else []),
                 cache_odb=cache_odb,
                 shallow=shallow,
                 dry=dry,
@@ -276,21 +285,21 @@ def run_case(case):
                     res["viol"].append((sig + "/unpacked-dir", detail, sub))
     # the store path spelled with a trailing separator / through '..', and 1300 extra unused objects
     if len(store) == len(universe(tier)[0]) and case["kind"] in ("local", "base"):
-        extra = [("trail", False), ("dotdot", False), ("plain", True)]
-        for pathform, bulk in extra:
+        extra = [("trail", False, False), ("dotdot", False, False), ("plain", True, False), ("plain", False, True)]
+        for pathform, bulk, odd in extra:
             for used in ([], ["A"], ["A", "x"]):
                 for shallow in (True, False):
                     for dry in (False, True):
                         sub = {"kind": case["kind"], "store": store, "used": used, "shallow": shallow, "dry": dry,
-                               "cachemode": "self", "ro": False, "pathform": pathform, "bulk": bulk}
+                               "cachemode": "self", "ro": False, "pathform": pathform, "bulk": bulk, "odd": odd}
                         viol, outcome = run_one(case["kind"], store, used, shallow, dry, "self",
-                                                pathform=pathform, bulk=bulk)
+                                                pathform=pathform, bulk=bulk, odd=odd)
                         res["n"] += 1
                         res["trans"] += 1
                         res["vac"]["path_spelling_or_bulk_runs"] = res["vac"].get("path_spelling_or_bulk_runs", 0) + 1
                         res["outcomes"].add(repr(outcome))
                         for sig, detail in viol:
-                            res["viol"].append((sig + ("/bulk" if bulk else f"/store-path-{pathform}"), detail, sub))
+                            res["viol"].append((sig + ("/bulk" if bulk else "/odd-names" if odd else f"/store-path-{pathform}"), detail, sub))
     # read-only refusal, once per store content (also with a separate, writable cache_odb), and the
     # converse: a writable store with a read-only cache_odb is collected normally
     for dry in (False, True):
@@ -316,9 +325,11 @@ def replay(case):
     viol, _ = run_one(case["kind"], case["store"], case["used"], case["shallow"],
                       case["dry"], case["cachemode"], read_only=case.get("ro", False),
                       cache_ro=case.get("cache_ro", False), unpacked=case.get("unpacked", False),
-                      pathform=case.get("pathform", "plain"), bulk=case.get("bulk", False))
+                      pathform=case.get("pathform", "plain"), bulk=case.get("bulk", False), odd=case.get("odd", False))
     if case.get("bulk"):
         viol = [(s_ + "/bulk", d) for s_, d in viol]
+    elif case.get("odd"):
+        viol = [(s_ + "/odd-names", d) for s_, d in viol]
     elif case.get("pathform", "plain") != "plain":
         viol = [(s_ + f"/store-path-{case['pathform']}", d) for s_, d in viol]
     if case.get("unpacked"):
